@@ -9,6 +9,33 @@ type nat =
 | O
 | S of nat
 
+type ('a, 'b) sum =
+| Inl of 'a
+| Inr of 'b
+
+(** val fst : ('a1 * 'a2) -> 'a1 **)
+
+let fst = function
+| (x, _) -> x
+
+(** val snd : ('a1 * 'a2) -> 'a2 **)
+
+let snd = function
+| (_, y) -> y
+
+(** val length : 'a1 list -> nat **)
+
+let rec length = function
+| [] -> O
+| _ :: l' -> S (length l')
+
+(** val app : 'a1 list -> 'a1 list -> 'a1 list **)
+
+let rec app l m =
+  match l with
+  | [] -> m
+  | a :: l1 -> a :: (app l1 m)
+
 type comparison =
 | Eq
 | Lt
@@ -20,6 +47,12 @@ let compOpp = function
 | Eq -> Eq
 | Lt -> Gt
 | Gt -> Lt
+
+(** val pred : nat -> nat **)
+
+let pred n0 = match n0 with
+| O -> n0
+| S u -> u
 
 module Coq__1 = struct
  (** val add : nat -> nat -> nat **)
@@ -43,6 +76,43 @@ type z =
 | Z0
 | Zpos of positive
 | Zneg of positive
+
+module Nat =
+ struct
+  (** val add : nat -> nat -> nat **)
+
+  let rec add n0 m =
+    match n0 with
+    | O -> m
+    | S p -> S (add p m)
+
+  (** val mul : nat -> nat -> nat **)
+
+  let rec mul n0 m =
+    match n0 with
+    | O -> O
+    | S p -> add m (mul p m)
+
+  (** val eqb : nat -> nat -> bool **)
+
+  let rec eqb n0 m =
+    match n0 with
+    | O -> (match m with
+            | O -> true
+            | S _ -> false)
+    | S n' -> (match m with
+               | O -> false
+               | S m' -> eqb n' m')
+
+  (** val leb : nat -> nat -> bool **)
+
+  let rec leb n0 m =
+    match n0 with
+    | O -> true
+    | S n' -> (match m with
+               | O -> false
+               | S m' -> leb n' m')
+ end
 
 module Pos =
  struct
@@ -250,6 +320,12 @@ module Pos =
 
   let to_nat x =
     iter_op Coq__1.add x (S O)
+
+  (** val of_succ_nat : nat -> positive **)
+
+  let rec of_succ_nat = function
+  | O -> XH
+  | S x -> succ (of_succ_nat x)
  end
 
 module N =
@@ -428,6 +504,12 @@ module Z =
   | Zpos p -> Pos.to_nat p
   | _ -> O
 
+  (** val of_nat : nat -> z **)
+
+  let of_nat = function
+  | O -> Z0
+  | S n1 -> Zpos (Pos.of_succ_nat n1)
+
   (** val of_N : n -> z **)
 
   let of_N = function
@@ -519,6 +601,92 @@ module Z =
        | Zneg b0 ->
          Zneg (N.succ_pos (N.coq_lor (Pos.pred_N a0) (Pos.pred_N b0))))
  end
+
+(** val nth : nat -> 'a1 list -> 'a1 -> 'a1 **)
+
+let rec nth n0 l default =
+  match n0 with
+  | O -> (match l with
+          | [] -> default
+          | x :: _ -> x)
+  | S m -> (match l with
+            | [] -> default
+            | _ :: t0 -> nth m t0 default)
+
+(** val nth_error : 'a1 list -> nat -> 'a1 option **)
+
+let rec nth_error l = function
+| O -> (match l with
+        | [] -> None
+        | x :: _ -> Some x)
+| S n1 -> (match l with
+           | [] -> None
+           | _ :: l0 -> nth_error l0 n1)
+
+(** val rev : 'a1 list -> 'a1 list **)
+
+let rec rev = function
+| [] -> []
+| x :: l' -> app (rev l') (x :: [])
+
+(** val map : ('a1 -> 'a2) -> 'a1 list -> 'a2 list **)
+
+let rec map f = function
+| [] -> []
+| a :: t0 -> (f a) :: (map f t0)
+
+(** val flat_map : ('a1 -> 'a2 list) -> 'a1 list -> 'a2 list **)
+
+let rec flat_map f = function
+| [] -> []
+| x :: t0 -> app (f x) (flat_map f t0)
+
+(** val fold_left : ('a1 -> 'a2 -> 'a1) -> 'a2 list -> 'a1 -> 'a1 **)
+
+let rec fold_left f l a0 =
+  match l with
+  | [] -> a0
+  | b :: t0 -> fold_left f t0 (f a0 b)
+
+(** val fold_right : ('a2 -> 'a1 -> 'a1) -> 'a1 -> 'a2 list -> 'a1 **)
+
+let rec fold_right f a0 = function
+| [] -> a0
+| b :: t0 -> f b (fold_right f a0 t0)
+
+(** val existsb : ('a1 -> bool) -> 'a1 list -> bool **)
+
+let rec existsb f = function
+| [] -> false
+| a :: l0 -> (||) (f a) (existsb f l0)
+
+(** val forallb : ('a1 -> bool) -> 'a1 list -> bool **)
+
+let rec forallb f = function
+| [] -> true
+| a :: l0 -> (&&) (f a) (forallb f l0)
+
+(** val filter : ('a1 -> bool) -> 'a1 list -> 'a1 list **)
+
+let rec filter f = function
+| [] -> []
+| x :: l0 -> if f x then x :: (filter f l0) else filter f l0
+
+(** val combine : 'a1 list -> 'a2 list -> ('a1 * 'a2) list **)
+
+let rec combine l l' =
+  match l with
+  | [] -> []
+  | x :: tl ->
+    (match l' with
+     | [] -> []
+     | y :: tl' -> (x, y) :: (combine tl tl'))
+
+(** val seq : nat -> nat -> nat list **)
+
+let rec seq start = function
+| O -> []
+| S len0 -> start :: (seq (S start) len0)
 
 (** val neg_one : z -> z **)
 
@@ -665,3 +833,1707 @@ let try_into_i16 w c =
          XH))))))))))))))))
   then Some s
   else None
+
+module PositiveMap =
+ struct
+  type key = positive
+
+  type 'a tree =
+  | Leaf
+  | Node of 'a tree * 'a option * 'a tree
+
+  type 'a t = 'a tree
+
+  (** val empty : 'a1 t **)
+
+  let empty =
+    Leaf
+
+  (** val find : key -> 'a1 t -> 'a1 option **)
+
+  let rec find i = function
+  | Leaf -> None
+  | Node (l, o, r) ->
+    (match i with
+     | XI ii -> find ii r
+     | XO ii -> find ii l
+     | XH -> o)
+
+  (** val add : key -> 'a1 -> 'a1 t -> 'a1 t **)
+
+  let rec add i v = function
+  | Leaf ->
+    (match i with
+     | XI ii -> Node (Leaf, None, (add ii v Leaf))
+     | XO ii -> Node ((add ii v Leaf), None, Leaf)
+     | XH -> Node (Leaf, (Some v), Leaf))
+  | Node (l, o, r) ->
+    (match i with
+     | XI ii -> Node (l, o, (add ii v r))
+     | XO ii -> Node ((add ii v l), o, r)
+     | XH -> Node (l, (Some v), r))
+ end
+
+type event =
+| EvIn of z
+| EvEof
+| EvInFail
+| EvOut of z
+| EvOutFail of z
+
+type env = { input : z list; in_absent : bool; in_fail_at : nat option;
+             out_present : bool; out_fail_at : nat option }
+
+type iost = { in_pos : nat; out_cnt : nat; trace : event list }
+
+(** val io0 : iost **)
+
+let io0 =
+  { in_pos = O; out_cnt = O; trace = [] }
+
+type 'a io_res =
+| IoOk of 'a * iost
+| IoFail of iost
+
+(** val opt_nat_eqb : nat option -> nat -> bool **)
+
+let opt_nat_eqb o n0 =
+  match o with
+  | Some k -> Nat.eqb k n0
+  | None -> false
+
+(** val do_input : env -> iost -> z io_res **)
+
+let do_input e s =
+  if e.in_absent
+  then IoFail s
+  else if opt_nat_eqb e.in_fail_at s.in_pos
+       then IoFail { in_pos = (S s.in_pos); out_cnt = s.out_cnt; trace =
+              (EvInFail :: s.trace) }
+       else (match nth_error e.input s.in_pos with
+             | Some b ->
+               IoOk (b, { in_pos = (S s.in_pos); out_cnt = s.out_cnt; trace =
+                 ((EvIn b) :: s.trace) })
+             | None ->
+               IoOk (Z0, { in_pos = (S s.in_pos); out_cnt = s.out_cnt;
+                 trace = (EvEof :: s.trace) }))
+
+(** val do_output : env -> iost -> z -> unit io_res **)
+
+let do_output e s b =
+  if negb e.out_present
+  then IoOk ((), s)
+  else if opt_nat_eqb e.out_fail_at s.out_cnt
+       then IoFail { in_pos = s.in_pos; out_cnt = (S s.out_cnt); trace =
+              ((EvOutFail b) :: s.trace) }
+       else IoOk ((), { in_pos = s.in_pos; out_cnt = (S s.out_cnt); trace =
+              ((EvOut b) :: s.trace) })
+
+type 'a outcome =
+| Done of 'a
+| Stopped of 'a
+| Interrupted of 'a
+| Errored of z * 'a
+| OutOfFuel of 'a
+
+(** val outcome_state : 'a1 outcome -> 'a1 **)
+
+let outcome_state = function
+| Done a -> a
+| Stopped a -> a
+| Interrupted a -> a
+| Errored (_, a) -> a
+| OutOfFuel a -> a
+
+(** val key_of : z -> positive **)
+
+let key_of = function
+| Z0 -> XH
+| Zpos p -> XO p
+| Zneg p -> XI p
+
+type tmap = z PositiveMap.t
+
+(** val tempty : tmap **)
+
+let tempty =
+  PositiveMap.empty
+
+(** val tget : tmap -> z -> z **)
+
+let tget t0 k =
+  match PositiveMap.find (key_of k) t0 with
+  | Some v -> v
+  | None -> Z0
+
+(** val tset : tmap -> z -> z -> tmap **)
+
+let tset t0 k v =
+  PositiveMap.add (key_of k) v t0
+
+type cmd =
+| Inc
+| Dec
+| Left
+| Right
+| Out
+| In
+| Loop of cmd list
+
+(** val ch_plus : z **)
+
+let ch_plus =
+  Zpos (XI (XI (XO (XI (XO XH)))))
+
+(** val ch_comma : z **)
+
+let ch_comma =
+  Zpos (XO (XO (XI (XI (XO XH)))))
+
+(** val ch_minus : z **)
+
+let ch_minus =
+  Zpos (XI (XO (XI (XI (XO XH)))))
+
+(** val ch_dot : z **)
+
+let ch_dot =
+  Zpos (XO (XI (XI (XI (XO XH)))))
+
+(** val ch_lt : z **)
+
+let ch_lt =
+  Zpos (XO (XO (XI (XI (XI XH)))))
+
+(** val ch_gt : z **)
+
+let ch_gt =
+  Zpos (XO (XI (XI (XI (XI XH)))))
+
+(** val ch_open : z **)
+
+let ch_open =
+  Zpos (XI (XI (XO (XI (XI (XO XH))))))
+
+(** val ch_close : z **)
+
+let ch_close =
+  Zpos (XI (XO (XI (XI (XI (XO XH))))))
+
+(** val parse_ast : z list -> cmd list -> cmd list list -> cmd list option **)
+
+let rec parse_ast cs cur0 stack =
+  match cs with
+  | [] -> (match stack with
+           | [] -> Some (rev cur0)
+           | _ :: _ -> None)
+  | c :: cs' ->
+    if Z.eqb c ch_plus
+    then parse_ast cs' (Inc :: cur0) stack
+    else if Z.eqb c ch_minus
+         then parse_ast cs' (Dec :: cur0) stack
+         else if Z.eqb c ch_lt
+              then parse_ast cs' (Left :: cur0) stack
+              else if Z.eqb c ch_gt
+                   then parse_ast cs' (Right :: cur0) stack
+                   else if Z.eqb c ch_dot
+                        then parse_ast cs' (Out :: cur0) stack
+                        else if Z.eqb c ch_comma
+                             then parse_ast cs' (In :: cur0) stack
+                             else if Z.eqb c ch_open
+                                  then parse_ast cs' [] (cur0 :: stack)
+                                  else if Z.eqb c ch_close
+                                       then (match stack with
+                                             | [] -> None
+                                             | parent :: stack' ->
+                                               parse_ast cs' ((Loop
+                                                 (rev cur0)) :: parent) stack')
+                                       else parse_ast cs' cur0 stack
+
+(** val ast_of_source : z list -> cmd list option **)
+
+let ast_of_source cs =
+  parse_ast cs [] []
+
+(** val balanced_from : z list -> nat -> bool **)
+
+let rec balanced_from cs depth =
+  match cs with
+  | [] -> Nat.eqb depth O
+  | c :: cs' ->
+    if Z.eqb c ch_open
+    then balanced_from cs' (S depth)
+    else if Z.eqb c ch_close
+         then (match depth with
+               | O -> false
+               | S d -> balanced_from cs' d)
+         else balanced_from cs' depth
+
+(** val balanced : z list -> bool **)
+
+let balanced cs =
+  balanced_from cs O
+
+type bfst = { tape : tmap; ptr : z; io : iost }
+
+(** val bf0 : bfst **)
+
+let bf0 =
+  { tape = tempty; ptr = Z0; io = io0 }
+
+(** val cur : bfst -> z **)
+
+let cur s =
+  tget s.tape s.ptr
+
+(** val set_cur : bfst -> z -> bfst **)
+
+let set_cur s v =
+  { tape = (tset s.tape s.ptr v); ptr = s.ptr; io = s.io }
+
+(** val set_io : bfst -> iost -> bfst **)
+
+let set_io s i =
+  { tape = s.tape; ptr = s.ptr; io = i }
+
+(** val move : bfst -> z -> bfst **)
+
+let move s d =
+  { tape = s.tape; ptr = (Z.add s.ptr d); io = s.io }
+
+(** val bf_simple : z -> env -> cmd -> bfst -> (bfst, bfst) sum **)
+
+let bf_simple w e c s =
+  match c with
+  | Inc -> Inl (set_cur s (wadd w (cur s) (Zpos XH)))
+  | Dec -> Inl (set_cur s (wadd w (cur s) (neg_one w)))
+  | Left -> Inl (move s (Zneg XH))
+  | Right -> Inl (move s (Zpos XH))
+  | Out ->
+    (match do_output e s.io (into_u8 w (cur s)) with
+     | IoOk (_, i) -> Inl (set_io s i)
+     | IoFail i -> Inr (set_io s i))
+  | In ->
+    (match do_input e s.io with
+     | IoOk (b, i) -> Inl (set_io (set_cur s (from_u8 w b)) i)
+     | IoFail i -> Inr (set_io s i))
+  | Loop _ -> Inl s
+
+(** val bf_exec : z -> env -> nat -> cmd list -> bfst -> bfst outcome **)
+
+let rec bf_exec w e fuel p s =
+  match fuel with
+  | O -> OutOfFuel s
+  | S f ->
+    (match p with
+     | [] -> Done s
+     | c :: rest ->
+       (match c with
+        | Loop body ->
+          if Z.eqb (cur s) Z0
+          then bf_exec w e f rest s
+          else (match bf_exec w e f body s with
+                | Done s' -> bf_exec w e f p s'
+                | x -> x)
+        | _ ->
+          (match bf_simple w e c s with
+           | Inl s' -> bf_exec w e f rest s'
+           | Inr s' -> Stopped s')))
+
+(** val bf_run : z -> env -> nat -> z list -> bfst outcome option **)
+
+let bf_run w e fuel src =
+  match ast_of_source src with
+  | Some p -> Some (bf_exec w e fuel p bf0)
+  | None -> None
+
+(** val events : ('a1 -> iost) -> 'a1 outcome -> event list **)
+
+let events get_io o =
+  rev (get_io (outcome_state o)).trace
+
+type part = z * z list
+
+type expr = part list
+
+(** val lcmp : z list -> z list -> comparison **)
+
+let rec lcmp a b =
+  match a with
+  | [] -> (match b with
+           | [] -> Eq
+           | _ :: _ -> Lt)
+  | x :: a' ->
+    (match b with
+     | [] -> Gt
+     | y :: b' -> (match Z.compare x y with
+                   | Eq -> lcmp a' b'
+                   | x0 -> x0))
+
+(** val list_eqb : z list -> z list -> bool **)
+
+let rec list_eqb a b =
+  match a with
+  | [] -> (match b with
+           | [] -> true
+           | _ :: _ -> false)
+  | x :: a' ->
+    (match b with
+     | [] -> false
+     | y :: b' -> (&&) (Z.eqb x y) (list_eqb a' b'))
+
+(** val mem : z -> z list -> bool **)
+
+let rec mem v = function
+| [] -> false
+| x :: t0 -> (||) (Z.eqb x v) (mem v t0)
+
+(** val count : z -> z list -> nat **)
+
+let rec count v = function
+| [] -> O
+| x :: t0 -> if Z.eqb x v then S (count v t0) else count v t0
+
+(** val dedup : z list -> z list **)
+
+let rec dedup = function
+| [] -> []
+| x :: t0 ->
+  (match t0 with
+   | [] -> x :: []
+   | y :: _ -> if Z.eqb x y then dedup t0 else x :: (dedup t0))
+
+(** val insert_z : z -> z list -> z list **)
+
+let rec insert_z x l = match l with
+| [] -> x :: []
+| y :: t0 -> if Z.leb x y then x :: l else y :: (insert_z x t0)
+
+(** val sort_z : z list -> z list **)
+
+let sort_z l =
+  fold_right insert_z [] l
+
+(** val insert_part : part -> expr -> expr **)
+
+let rec insert_part p l = match l with
+| [] -> p :: []
+| q :: t0 ->
+  (match lcmp (snd p) (snd q) with
+   | Gt -> q :: (insert_part p t0)
+   | _ -> p :: l)
+
+(** val sort_parts : expr -> expr **)
+
+let sort_parts l =
+  fold_right insert_part [] l
+
+(** val nonzero : part -> bool **)
+
+let nonzero p =
+  negb (Z.eqb (fst p) Z0)
+
+(** val e_val : z -> expr **)
+
+let e_val c =
+  if Z.eqb c Z0 then [] else (c, []) :: []
+
+(** val e_var : z -> expr **)
+
+let e_var v =
+  ((Zpos XH), (v :: [])) :: []
+
+(** val eval_part : z -> (z -> z) -> part -> z **)
+
+let eval_part w get p =
+  fold_left (fun pv v -> wmul w pv (get v)) (snd p) (fst p)
+
+(** val eval : z -> expr -> (z -> z) -> z **)
+
+let eval w e get =
+  fold_left (fun val0 p -> wadd w val0 (eval_part w get p)) e Z0
+
+(** val e_add : z -> expr -> expr -> expr **)
+
+let rec e_add w a b =
+  match a with
+  | [] -> b
+  | pa :: a' ->
+    let rec go = function
+    | [] -> pa :: a'
+    | pb :: b' ->
+      (match lcmp (snd pa) (snd pb) with
+       | Eq ->
+         let c = wadd w (fst pa) (fst pb) in
+         if Z.eqb c Z0
+         then e_add w a' b'
+         else (c, (snd pa)) :: (e_add w a' b')
+       | Lt -> pa :: (e_add w a' (pb :: b'))
+       | Gt -> pb :: (go b'))
+    in go b
+
+(** val scale_parts : z -> expr -> part -> expr **)
+
+let scale_parts w ps q =
+  filter nonzero
+    (map (fun p -> ((wmul w (fst p) (fst q)), (app (snd p) (snd q)))) ps)
+
+type amap = (z list * z) list
+
+(** val acc_add : z -> z list -> z -> amap -> amap **)
+
+let rec acc_add w k c = function
+| [] -> (k, (wadd w Z0 c)) :: []
+| p :: m' ->
+  let (k', c') = p in
+  if list_eqb k k'
+  then (k', (wadd w c' c)) :: m'
+  else (k', c') :: (acc_add w k c m')
+
+(** val amap_parts : amap -> expr **)
+
+let amap_parts m =
+  sort_parts (filter nonzero (map (fun kc -> ((snd kc), (fst kc))) m))
+
+(** val mul_general : z -> expr -> expr -> expr **)
+
+let mul_general w a b =
+  amap_parts
+    (fold_left (fun m pa ->
+      fold_left (fun m0 pb ->
+        acc_add w (sort_z (app (snd pa) (snd pb))) (wmul w (fst pa) (fst pb))
+          m0) b m) a [])
+
+(** val e_mul : z -> expr -> expr -> expr **)
+
+let e_mul w a b =
+  match a with
+  | [] -> []
+  | q :: l ->
+    (match l with
+     | [] -> (match b with
+              | [] -> []
+              | _ :: _ -> scale_parts w b q)
+     | _ :: _ ->
+       (match b with
+        | [] -> []
+        | q0 :: l1 ->
+          (match l1 with
+           | [] -> scale_parts w a q0
+           | _ :: _ -> mul_general w a b)))
+
+(** val e_neg : z -> expr -> expr **)
+
+let e_neg w a =
+  map (fun p -> ((wneg w (fst p)), (snd p))) a
+
+(** val e_half : z -> expr -> expr option **)
+
+let e_half w a =
+  if forallb (fun p -> negb (is_odd (fst p))) a
+  then Some (map (fun p -> ((wshr w (fst p) (Zpos XH)), (snd p))) a)
+  else None
+
+(** val e_is_zero : expr -> bool **)
+
+let e_is_zero = function
+| [] -> true
+| _ :: _ -> false
+
+(** val e_add_count : expr -> nat **)
+
+let e_add_count a =
+  pred (length a)
+
+(** val e_op_count : z -> expr -> nat **)
+
+let e_op_count w a =
+  pred
+    (Nat.add
+      (fold_left (fun n0 p ->
+        Nat.add n0 (Nat.mul (S (S O)) (length (snd p)))) a O)
+      (length
+        (filter (fun p ->
+          (&&) (negb (Z.eqb (fst p) (Zpos XH)))
+            (negb (Z.eqb (fst p) (neg_one w)))) a)))
+
+(** val e_constant : expr -> z option **)
+
+let e_constant = function
+| [] -> Some Z0
+| p :: l ->
+  let (c, l0) = p in
+  (match l0 with
+   | [] -> (match l with
+            | [] -> Some c
+            | _ :: _ -> None)
+   | _ :: _ -> None)
+
+(** val is_single : z -> part -> bool **)
+
+let is_single v p =
+  match snd p with
+  | [] -> false
+  | x :: l -> (match l with
+               | [] -> Z.eqb x v
+               | _ :: _ -> false)
+
+(** val e_inc_of : expr -> z -> expr option **)
+
+let e_inc_of a v =
+  if (&&)
+       (existsb (fun p -> (&&) (Z.eqb (fst p) (Zpos XH)) (is_single v p)) a)
+       (forallb (fun p ->
+         (||) (negb (mem v (snd p))) (Nat.eqb (length (snd p)) (S O))) a)
+  then Some (filter (fun p -> negb (is_single v p)) a)
+  else None
+
+(** val e_prod_inc_of : expr -> z -> (expr * z) option **)
+
+let e_prod_inc_of a v =
+  if forallb (fun p ->
+       (||) (negb (mem v (snd p))) (Nat.eqb (length (snd p)) (S O))) a
+  then Some ((filter (fun p -> negb (is_single v p)) a),
+         (fold_left (fun m p -> if is_single v p then fst p else m) a Z0))
+  else None
+
+(** val e_const_inc_of : expr -> z -> z option **)
+
+let e_const_inc_of a v =
+  match a with
+  | [] -> None
+  | p :: l ->
+    let (c0, l0) = p in
+    (match l0 with
+     | [] ->
+       (match l with
+        | [] -> None
+        | p0 :: l1 ->
+          let (c1, l2) = p0 in
+          (match l2 with
+           | [] -> None
+           | x :: l3 ->
+             (match l3 with
+              | [] ->
+                (match l1 with
+                 | [] ->
+                   if (&&) (Z.eqb c1 (Zpos XH)) (Z.eqb x v)
+                   then Some c0
+                   else None
+                 | _ :: _ -> None)
+              | _ :: _ -> None)))
+     | x :: l1 ->
+       (match l1 with
+        | [] ->
+          (match l with
+           | [] ->
+             if (&&) (Z.eqb c0 (Zpos XH)) (Z.eqb x v) then Some Z0 else None
+           | _ :: _ -> None)
+        | _ :: _ -> None))
+
+(** val remove_var : z -> z list -> z list **)
+
+let remove_var v l =
+  filter (fun x -> negb (Z.eqb x v)) l
+
+(** val e_prod_of : expr -> z -> expr option **)
+
+let e_prod_of a v =
+  if forallb (fun p -> Nat.eqb (count v (snd p)) (S O)) a
+  then Some (map (fun p -> ((fst p), (remove_var v (snd p)))) a)
+  else None
+
+(** val e_constant_part : expr -> z **)
+
+let e_constant_part = function
+| [] -> Z0
+| p :: _ -> let (c, l0) = p in (match l0 with
+                                | [] -> c
+                                | _ :: _ -> Z0)
+
+(** val e_identity : expr -> z option **)
+
+let e_identity = function
+| [] -> None
+| p :: l ->
+  let (c, l0) = p in
+  (match l0 with
+   | [] -> None
+   | x :: l1 ->
+     (match l1 with
+      | [] ->
+        (match l with
+         | [] -> if Z.eqb c (Zpos XH) then Some x else None
+         | _ :: _ -> None)
+      | _ :: _ -> None))
+
+(** val e_variables : expr -> z list **)
+
+let e_variables a =
+  flat_map snd a
+
+(** val assoc_z : z -> (z * 'a1) list -> 'a1 option **)
+
+let rec assoc_z v = function
+| [] -> None
+| p :: m' -> let (k, x) = p in if Z.eqb k v then Some x else assoc_z v m'
+
+(** val e_split_along :
+    z -> expr -> z list -> (z * expr) list -> ((expr * expr) * (expr * expr)
+    list) option **)
+
+let e_split_along w a constant linear =
+  let isc = fun v -> mem v constant in
+  let isl = fun v ->
+    match assoc_z v linear with
+    | Some _ -> true
+    | None -> false
+  in
+  fold_left (fun acc p ->
+    match acc with
+    | Some y ->
+      let (y0, lp) = y in
+      let (cp, op) = y0 in
+      if forallb isc (snd p)
+      then Some (((app cp (p :: [])), op), lp)
+      else if (&&) (forallb (fun v -> (||) (isc v) (isl v)) (snd p))
+                (Nat.eqb (length (filter (fun x -> negb (isc x)) (snd p))) (S
+                  O))
+           then (match filter (fun x -> negb (isc x)) (snd p) with
+                 | [] -> None
+                 | lv :: _ ->
+                   (match assoc_z lv linear with
+                    | Some li ->
+                      Some ((cp, op),
+                        (app lp (((p :: []),
+                          (e_mul w (((fst p), (remove_var lv (snd p))) :: [])
+                            li)) :: [])))
+                    | None -> None))
+           else Some ((cp, (app op (p :: []))), lp)
+    | None -> None) a (Some (([], []), []))
+
+(** val half_mod : z -> z **)
+
+let half_mod w =
+  wshl w (Zpos XH) (Z.sub w (Zpos XH))
+
+(** val chunk_sum : z -> part option -> expr -> expr **)
+
+let rec chunk_sum w head = function
+| [] -> (match head with
+         | Some h -> h :: []
+         | None -> [])
+| p :: t0 ->
+  (match head with
+   | Some h ->
+     if list_eqb (snd h) (snd p)
+     then chunk_sum w (Some ((wadd w (fst h) (fst p)), (snd h))) t0
+     else h :: (chunk_sum w (Some p) t0)
+   | None -> chunk_sum w (Some p) t0)
+
+(** val norm_phase1 : z -> expr -> expr **)
+
+let norm_phase1 w a =
+  let hm = half_mod w in
+  if existsb (fun p ->
+       (&&) (Nat.leb (S (S O)) (length (snd p))) (Z.eqb (fst p) hm)) a
+  then let a' =
+         map (fun p ->
+           if Z.eqb (fst p) hm then ((fst p), (dedup (snd p))) else p) a
+       in
+       let need =
+         existsb (fun pq ->
+           negb (Nat.eqb (length (snd (fst pq))) (length (snd (snd pq)))))
+           (combine a a')
+       in
+       if need then filter nonzero (chunk_sum w None (sort_parts a')) else a'
+  else a
+
+(** val upd_coef : nat -> z -> expr -> expr **)
+
+let rec upd_coef i c = function
+| [] -> []
+| p :: t0 ->
+  (match i with
+   | O -> (c, (snd p)) :: t0
+   | S i' -> p :: (upd_coef i' c t0))
+
+(** val coef_at : expr -> nat -> z **)
+
+let coef_at l i =
+  fst (nth i l (Z0, []))
+
+(** val vars_at : expr -> nat -> z list **)
+
+let vars_at l i =
+  snd (nth i l (Z0, []))
+
+(** val assoc_l : z list -> (z list * 'a1) list -> 'a1 option **)
+
+let rec assoc_l k = function
+| [] -> None
+| p :: m' -> let (k', x) = p in if list_eqb k k' then Some x else assoc_l k m'
+
+(** val assoc_l_push :
+    z list -> nat -> (z list * nat list) list -> (z list * nat list) list **)
+
+let rec assoc_l_push k i = function
+| [] -> (k, (i :: [])) :: []
+| p :: m' ->
+  let (k', x) = p in
+  if list_eqb k k'
+  then (k', (app x (i :: []))) :: m'
+  else (k', x) :: (assoc_l_push k i m')
+
+(** val norm_cond : z -> z -> z -> bool **)
+
+let norm_cond w ci cj =
+  let hm = half_mod w in
+  let hp = wadd w hm (Zpos XH) in
+  let hmm = wadd w hm (neg_one w) in
+  (||)
+    ((&&) ((||) (Z.leb ci hp) (Z.leb hmm ci))
+      ((||) (Z.ltb (Zpos XH) cj) (Z.ltb cj (neg_one w))))
+    ((&&) ((&&) (Z.ltb (Zpos XH) ci) (Z.ltb ci (neg_one w)))
+      ((||) (Z.leb cj hp) (Z.leb hmm cj)))
+
+(** val norm_phase2 : z -> expr -> expr **)
+
+let norm_phase2 w a =
+  let hm = half_mod w in
+  let hp = wadd w hm (Zpos XH) in
+  let hmm = wadd w hm (neg_one w) in
+  if existsb (fun p ->
+       (&&) (negb (Nat.eqb (length (snd p)) O))
+         ((||) (Z.leb (fst p) hp) (Z.leb hmm (fst p)))) a
+  then let (p, need) =
+         fold_left (fun st i ->
+           let (y, need) = st in
+           let (parts, by_red) = y in
+           if Nat.eqb (length (vars_at parts i)) O
+           then st
+           else let key0 = dedup (vars_at parts i) in
+                (match assoc_l key0 by_red with
+                 | Some others ->
+                   let (parts', need') =
+                     fold_left (fun pn j ->
+                       let (ps, nd) = pn in
+                       if norm_cond w (coef_at ps i) (coef_at ps j)
+                       then let ni = wadd w (coef_at ps i) hm in
+                            let nj = wadd w (coef_at ps j) hm in
+                            ((upd_coef j nj (upd_coef i ni ps)),
+                            ((||) ((||) nd (Z.eqb ni Z0)) (Z.eqb nj Z0)))
+                       else pn) others (parts, need)
+                   in
+                   ((parts', (assoc_l_push key0 i by_red)), need')
+                 | None -> ((parts, (assoc_l_push key0 i by_red)), need)))
+           (seq O (length a)) ((a, []), false)
+       in
+       let (parts, _) = p in if need then filter nonzero parts else parts
+  else a
+
+(** val e_normalize : z -> expr -> expr **)
+
+let e_normalize w a =
+  if (&&) (negb (e_is_zero a))
+       (existsb (fun p -> Nat.leb (S (S O)) (length (snd p))) a)
+  then norm_phase2 w (norm_phase1 w a)
+  else a
+
+(** val scale_sorted : z -> expr -> part -> expr **)
+
+let scale_sorted w ps q =
+  filter nonzero
+    (map (fun p -> ((wmul w (fst p) (fst q)),
+      (sort_z (app (snd p) (snd q))))) ps)
+
+(** val amap_list : amap -> expr **)
+
+let amap_list m =
+  filter nonzero (map (fun kc -> ((snd kc), (fst kc))) m)
+
+(** val mul_parts : z -> expr -> expr -> expr **)
+
+let mul_parts w left right =
+  match left with
+  | [] -> []
+  | q :: l ->
+    (match l with
+     | [] -> (match right with
+              | [] -> []
+              | _ :: _ -> scale_sorted w right q)
+     | _ :: _ ->
+       (match right with
+        | [] -> []
+        | q0 :: l1 ->
+          (match l1 with
+           | [] -> scale_sorted w left q0
+           | _ :: _ ->
+             amap_list
+               (fold_left (fun m pr ->
+                 fold_left (fun m0 pl ->
+                   acc_add w (sort_z (app (snd pr) (snd pl)))
+                     (wmul w (fst pr) (fst pl)) m0) left m) right []))))
+
+(** val e_symb_evaluate : z -> expr -> (z -> expr option) -> expr option **)
+
+let e_symb_evaluate w a func =
+  match e_identity a with
+  | Some v -> func v
+  | None ->
+    (match e_constant a with
+     | Some c -> Some (e_val c)
+     | None ->
+       let step = fun acc p ->
+         match acc with
+         | Some m ->
+           (match snd p with
+            | [] -> Some (acc_add w [] (fst p) m)
+            | v :: vs ->
+              (match vs with
+               | [] ->
+                 (match func v with
+                  | Some ev ->
+                    Some
+                      (fold_left (fun m0 vp ->
+                        acc_add w (snd vp) (wmul w (fst p) (fst vp)) m0) ev m)
+                  | None -> None)
+               | _ :: _ ->
+                 (match func v with
+                  | Some ev ->
+                    (match fold_left (fun partial v' ->
+                             match partial with
+                             | Some pr ->
+                               (match func v' with
+                                | Some e' -> Some (mul_parts w pr e')
+                                | None -> None)
+                             | None -> None) vs (Some ev) with
+                     | Some partial ->
+                       Some
+                         (fold_left (fun m0 vp ->
+                           acc_add w (snd vp) (wmul w (fst p) (fst vp)) m0)
+                           partial m)
+                     | None -> None)
+                  | None -> None)))
+         | None -> None
+       in
+       (match fold_left step a (Some []) with
+        | Some m -> Some (amap_parts m)
+        | None -> None))
+
+type ipst = { ip_tape : tmap; ip_ptr : z; ip_io : iost; ip_budget : z;
+              ip_stack : z list list }
+
+(** val ip0 : z -> ipst **)
+
+let ip0 budget =
+  { ip_tape = tempty; ip_ptr = Z0; ip_io = io0; ip_budget = budget;
+    ip_stack = [] }
+
+(** val ip_cur : ipst -> z **)
+
+let ip_cur s =
+  tget s.ip_tape s.ip_ptr
+
+(** val ip_set_cur : ipst -> z -> ipst **)
+
+let ip_set_cur s v =
+  { ip_tape = (tset s.ip_tape s.ip_ptr v); ip_ptr = s.ip_ptr; ip_io =
+    s.ip_io; ip_budget = s.ip_budget; ip_stack = s.ip_stack }
+
+(** val ip_set_io : ipst -> iost -> ipst **)
+
+let ip_set_io s i =
+  { ip_tape = s.ip_tape; ip_ptr = s.ip_ptr; ip_io = i; ip_budget =
+    s.ip_budget; ip_stack = s.ip_stack }
+
+(** val ip_move : ipst -> z -> ipst **)
+
+let ip_move s d =
+  { ip_tape = s.ip_tape; ip_ptr = (Z.add s.ip_ptr d); ip_io = s.ip_io;
+    ip_budget = s.ip_budget; ip_stack = s.ip_stack }
+
+(** val ip_set_stack : ipst -> z list list -> ipst **)
+
+let ip_set_stack s st =
+  { ip_tape = s.ip_tape; ip_ptr = s.ip_ptr; ip_io = s.ip_io; ip_budget =
+    s.ip_budget; ip_stack = st }
+
+(** val ip_set_budget : ipst -> z -> ipst **)
+
+let ip_set_budget s b =
+  { ip_tape = s.ip_tape; ip_ptr = s.ip_ptr; ip_io = s.ip_io; ip_budget = b;
+    ip_stack = s.ip_stack }
+
+(** val ip_scan : z list -> nat -> z list **)
+
+let rec ip_scan rest cnt =
+  match rest with
+  | [] -> []
+  | c :: rest' ->
+    if Z.eqb c ch_close
+    then (match cnt with
+          | O -> rest'
+          | S n0 -> ip_scan rest' n0)
+    else if Z.eqb c ch_open then ip_scan rest' (S cnt) else ip_scan rest' cnt
+
+(** val ip_exec :
+    z -> env -> bool -> z -> nat -> z list -> ipst -> ipst outcome **)
+
+let rec ip_exec w e limited total fuel rest s =
+  match fuel with
+  | O -> OutOfFuel s
+  | S f ->
+    (match rest with
+     | [] -> Done s
+     | c :: rest' ->
+       if Z.eqb c ch_lt
+       then ip_exec w e limited total f rest' (ip_move s (Zneg XH))
+       else if Z.eqb c ch_gt
+            then ip_exec w e limited total f rest' (ip_move s (Zpos XH))
+            else if Z.eqb c ch_plus
+                 then ip_exec w e limited total f rest'
+                        (ip_set_cur s (wadd w (ip_cur s) (Zpos XH)))
+                 else if Z.eqb c ch_minus
+                      then ip_exec w e limited total f rest'
+                             (ip_set_cur s (wadd w (ip_cur s) (neg_one w)))
+                      else if Z.eqb c ch_dot
+                           then (match do_output e s.ip_io
+                                         (into_u8 w (ip_cur s)) with
+                                 | IoOk (_, i) ->
+                                   ip_exec w e limited total f rest'
+                                     (ip_set_io s i)
+                                 | IoFail i -> Stopped (ip_set_io s i))
+                           else if Z.eqb c ch_comma
+                                then (match do_input e s.ip_io with
+                                      | IoOk (b, i) ->
+                                        ip_exec w e limited total f rest'
+                                          (ip_set_io
+                                            (ip_set_cur s (from_u8 w b)) i)
+                                      | IoFail i -> Stopped (ip_set_io s i))
+                                else if Z.eqb c ch_open
+                                     then if Z.eqb (ip_cur s) Z0
+                                          then ip_exec w e limited total f
+                                                 (ip_scan rest' O) s
+                                          else ip_exec w e limited total f
+                                                 rest'
+                                                 (ip_set_stack s
+                                                   (rest' :: s.ip_stack))
+                                     else if Z.eqb c ch_close
+                                          then if (&&) limited
+                                                    (Z.eqb s.ip_budget Z0)
+                                               then Interrupted s
+                                               else let s1 =
+                                                      if limited
+                                                      then ip_set_budget s
+                                                             (Z.sub
+                                                               s.ip_budget
+                                                               (Zpos XH))
+                                                      else s
+                                                    in
+                                                    (match s1.ip_stack with
+                                                     | [] ->
+                                                       Errored
+                                                         ((Z.sub total
+                                                            (Z.of_nat
+                                                              (length rest))),
+                                                         s1)
+                                                     | target :: st' ->
+                                                       if Z.eqb (ip_cur s1) Z0
+                                                       then ip_exec w e
+                                                              limited total f
+                                                              rest'
+                                                              (ip_set_stack
+                                                                s1 st')
+                                                       else ip_exec w e
+                                                              limited total f
+                                                              target s1)
+                                          else ip_exec w e limited total f
+                                                 rest' s)
+
+(** val ip_run : z -> env -> bool -> z -> nat -> z list -> ipst outcome **)
+
+let ip_run w e limited budget fuel src =
+  ip_exec w e limited (Z.of_nat (length src)) fuel src (ip0 budget)
+
+type instr =
+| IOut of z
+| IIn of z
+| ICalc of (z * expr) list
+| ILoop of z * z * instr list * bool
+| IIf of z * z * instr list
+
+type block = z * instr list
+
+type irst = { ir_tape : tmap; ir_ptr : z; ir_io : iost; ir_budget : z }
+
+(** val ir0 : z -> irst **)
+
+let ir0 budget =
+  { ir_tape = tempty; ir_ptr = Z0; ir_io = io0; ir_budget = budget }
+
+(** val ir_read : irst -> z -> z **)
+
+let ir_read s off =
+  tget s.ir_tape (Z.add s.ir_ptr off)
+
+(** val ir_write : irst -> z -> z -> irst **)
+
+let ir_write s off v =
+  { ir_tape = (tset s.ir_tape (Z.add s.ir_ptr off) v); ir_ptr = s.ir_ptr;
+    ir_io = s.ir_io; ir_budget = s.ir_budget }
+
+(** val ir_set_io : irst -> iost -> irst **)
+
+let ir_set_io s i =
+  { ir_tape = s.ir_tape; ir_ptr = s.ir_ptr; ir_io = i; ir_budget =
+    s.ir_budget }
+
+(** val ir_move : irst -> z -> irst **)
+
+let ir_move s d =
+  { ir_tape = s.ir_tape; ir_ptr = (Z.add s.ir_ptr d); ir_io = s.ir_io;
+    ir_budget = s.ir_budget }
+
+(** val ir_set_budget : irst -> z -> irst **)
+
+let ir_set_budget s b =
+  { ir_tape = s.ir_tape; ir_ptr = s.ir_ptr; ir_io = s.ir_io; ir_budget = b }
+
+(** val ir_calc : z -> (z * expr) list -> irst -> irst **)
+
+let ir_calc w calcs s =
+  let vals = map (fun ce -> ((fst ce), (eval w (snd ce) (ir_read s)))) calcs
+  in
+  fold_left (fun s0 vv -> ir_write s0 (fst vv) (snd vv)) vals s
+
+(** val ir_exec :
+    z -> env -> bool -> nat -> instr list -> irst -> irst outcome **)
+
+let rec ir_exec w e limited fuel insts s =
+  match fuel with
+  | O -> OutOfFuel s
+  | S f ->
+    (match insts with
+     | [] -> Done s
+     | i :: rest ->
+       (match i with
+        | IOut src ->
+          (match do_output e s.ir_io (into_u8 w (ir_read s src)) with
+           | IoOk (_, i0) -> ir_exec w e limited f rest (ir_set_io s i0)
+           | IoFail i0 -> Stopped (ir_set_io s i0))
+        | IIn dst ->
+          (match do_input e s.ir_io with
+           | IoOk (b, i0) ->
+             ir_exec w e limited f rest
+               (ir_write (ir_set_io s i0) dst (from_u8 w b))
+           | IoFail i0 -> Stopped (ir_set_io s i0))
+        | ICalc calcs -> ir_exec w e limited f rest (ir_calc w calcs s)
+        | ILoop (cond, shift, body, _) ->
+          if Z.eqb (ir_read s cond) Z0
+          then ir_exec w e limited f rest s
+          else (match ir_exec w e limited f body s with
+                | Done s' ->
+                  let s'' = ir_move s' shift in
+                  if limited
+                  then if Z.eqb s''.ir_budget Z0
+                       then Interrupted s''
+                       else ir_exec w e limited f insts
+                              (ir_set_budget s''
+                                (Z.sub s''.ir_budget (Zpos XH)))
+                  else ir_exec w e limited f insts s''
+                | Interrupted s' ->
+                  let s'' = ir_move s' shift in
+                  if limited
+                  then if Z.eqb s''.ir_budget Z0
+                       then Interrupted s''
+                       else ir_exec w e limited f insts
+                              (ir_set_budget s''
+                                (Z.sub s''.ir_budget (Zpos XH)))
+                  else ir_exec w e limited f insts s''
+                | x -> x)
+        | IIf (cond, shift, body) ->
+          if Z.eqb (ir_read s cond) Z0
+          then ir_exec w e limited f rest s
+          else (match ir_exec w e limited f body s with
+                | Done s' ->
+                  let s'' = ir_move s' shift in
+                  if limited
+                  then if Z.eqb s''.ir_budget Z0
+                       then Interrupted s''
+                       else ir_exec w e limited f rest
+                              (ir_set_budget s''
+                                (Z.sub s''.ir_budget (Zpos XH)))
+                  else ir_exec w e limited f rest s''
+                | Interrupted s' ->
+                  let s'' = ir_move s' shift in
+                  if limited
+                  then if Z.eqb s''.ir_budget Z0
+                       then Interrupted s''
+                       else ir_exec w e limited f rest
+                              (ir_set_budget s''
+                                (Z.sub s''.ir_budget (Zpos XH)))
+                  else ir_exec w e limited f rest s''
+                | x -> x)))
+
+(** val ir_run : z -> env -> bool -> z -> nat -> block -> irst outcome **)
+
+let ir_run w e limited budget fuel p =
+  ir_exec w e limited fuel (snd p) (ir0 budget)
+
+(** val finished_flag : 'a1 outcome -> bool **)
+
+let finished_flag = function
+| Interrupted _ -> false
+| _ -> true
+
+type loc =
+| Mem of z
+| MemZero of z
+| Tmp of z
+| Imm of z
+
+type binstr =
+| Noop
+| Scan of z * z
+| MovP of z
+| Inp of z
+| Outp of z
+| BrZ of z * z
+| BrNZ of z * z
+| Add of loc * loc * loc
+| Sub of loc * loc * loc
+| Mul of loc * loc * loc
+| Copy of loc * loc
+
+type bprog = { bp_temps : z; bp_min : z; bp_max : z; bp_live : z list;
+               bp_code : binstr list }
+
+type bcst = { bc_tape : tmap; bc_ptr : z; bc_tmps : tmap; bc_pc : z;
+              bc_io : iost; bc_budget : z }
+
+(** val bc0 : z -> bcst **)
+
+let bc0 budget =
+  { bc_tape = tempty; bc_ptr = Z0; bc_tmps = tempty; bc_pc = Z0; bc_io = io0;
+    bc_budget = budget }
+
+(** val bc_mem : bcst -> z -> z **)
+
+let bc_mem s k =
+  tget s.bc_tape (Z.add s.bc_ptr k)
+
+(** val bc_set_mem : bcst -> z -> z -> bcst **)
+
+let bc_set_mem s k v =
+  { bc_tape = (tset s.bc_tape (Z.add s.bc_ptr k) v); bc_ptr = s.bc_ptr;
+    bc_tmps = s.bc_tmps; bc_pc = s.bc_pc; bc_io = s.bc_io; bc_budget =
+    s.bc_budget }
+
+(** val bc_set_tmp : bcst -> z -> z -> bcst **)
+
+let bc_set_tmp s t0 v =
+  { bc_tape = s.bc_tape; bc_ptr = s.bc_ptr; bc_tmps = (tset s.bc_tmps t0 v);
+    bc_pc = s.bc_pc; bc_io = s.bc_io; bc_budget = s.bc_budget }
+
+(** val bc_set_pc : bcst -> z -> bcst **)
+
+let bc_set_pc s pc =
+  { bc_tape = s.bc_tape; bc_ptr = s.bc_ptr; bc_tmps = s.bc_tmps; bc_pc = pc;
+    bc_io = s.bc_io; bc_budget = s.bc_budget }
+
+(** val bc_set_io : bcst -> iost -> bcst **)
+
+let bc_set_io s i =
+  { bc_tape = s.bc_tape; bc_ptr = s.bc_ptr; bc_tmps = s.bc_tmps; bc_pc =
+    s.bc_pc; bc_io = i; bc_budget = s.bc_budget }
+
+(** val bc_move : bcst -> z -> bcst **)
+
+let bc_move s d =
+  { bc_tape = s.bc_tape; bc_ptr = (Z.add s.bc_ptr d); bc_tmps = s.bc_tmps;
+    bc_pc = s.bc_pc; bc_io = s.bc_io; bc_budget = s.bc_budget }
+
+(** val bc_set_budget : bcst -> z -> bcst **)
+
+let bc_set_budget s b =
+  { bc_tape = s.bc_tape; bc_ptr = s.bc_ptr; bc_tmps = s.bc_tmps; bc_pc =
+    s.bc_pc; bc_io = s.bc_io; bc_budget = b }
+
+(** val bc_read : z -> bcst -> loc -> z * bcst **)
+
+let bc_read _ s = function
+| Mem k -> ((bc_mem s k), s)
+| MemZero k -> ((bc_mem s k), (bc_set_mem s k Z0))
+| Tmp t0 -> ((tget s.bc_tmps t0), s)
+| Imm c -> (c, s)
+
+(** val bc_write : bcst -> loc -> z -> bcst **)
+
+let bc_write s l v =
+  match l with
+  | Mem k -> bc_set_mem s k v
+  | MemZero k -> bc_set_mem s k v
+  | Tmp t0 -> bc_set_tmp s t0 v
+  | Imm _ -> s
+
+(** val loc_eqb : loc -> loc -> bool **)
+
+let loc_eqb a b =
+  match a with
+  | Mem x -> (match b with
+              | Mem y -> Z.eqb x y
+              | _ -> false)
+  | Tmp x -> (match b with
+              | Tmp y -> Z.eqb x y
+              | _ -> false)
+  | _ -> false
+
+(** val bc_binop : z -> (z -> z -> z) -> bcst -> loc -> loc -> loc -> bcst **)
+
+let bc_binop w op s d a b =
+  if loc_eqb d a
+  then let (vb, s1) = bc_read w s b in
+       let (va, s2) = bc_read w s1 a in bc_write s2 d (op va vb)
+  else let (va, s1) = bc_read w s a in
+       let (vb, s2) = bc_read w s1 b in bc_write s2 d (op va vb)
+
+(** val bc_scan : nat -> z -> z -> bcst -> bcst option **)
+
+let rec bc_scan fuel cond shift s =
+  match fuel with
+  | O -> None
+  | S f ->
+    if Z.eqb (bc_mem s cond) Z0
+    then Some s
+    else bc_scan f cond shift (bc_move s shift)
+
+(** val next : bcst -> bcst **)
+
+let next s =
+  bc_set_pc s (Z.add s.bc_pc (Zpos XH))
+
+(** val bc_limit : z -> bcst -> bcst option **)
+
+let bc_limit cost s =
+  if Z.leb s.bc_budget cost
+  then None
+  else Some (bc_set_budget s (Z.sub s.bc_budget cost))
+
+(** val usize_max : z **)
+
+let usize_max =
+  Z.sub (Z.pow (Zpos (XO XH)) (Zpos (XO (XO (XO (XO (XO (XO XH)))))))) (Zpos
+    XH)
+
+(** val bc_exec :
+    z -> env -> bool -> (z -> binstr option) -> z -> nat -> bcst -> bcst
+    outcome **)
+
+let rec bc_exec w e limited fetch len fuel s =
+  match fuel with
+  | O -> OutOfFuel s
+  | S f ->
+    if Z.eqb s.bc_pc len
+    then Done s
+    else (match fetch s.bc_pc with
+          | Some i ->
+            (match i with
+             | Noop -> bc_exec w e limited fetch len f (next s)
+             | Scan (cond, shift) ->
+               if (&&) limited (Z.eqb shift Z0)
+               then if Z.eqb (bc_mem s cond) Z0
+                    then bc_exec w e limited fetch len f (next s)
+                    else (match bc_limit usize_max s with
+                          | Some s0 ->
+                            (match bc_scan fuel cond shift s0 with
+                             | Some s' ->
+                               bc_exec w e limited fetch len f (next s')
+                             | None -> OutOfFuel s0)
+                          | None -> Interrupted (bc_set_budget s Z0))
+               else (match bc_scan fuel cond shift s with
+                     | Some s' -> bc_exec w e limited fetch len f (next s')
+                     | None -> OutOfFuel s)
+             | MovP shift ->
+               bc_exec w e limited fetch len f (next (bc_move s shift))
+             | Inp dst ->
+               (match do_input e s.bc_io with
+                | IoOk (b, i') ->
+                  bc_exec w e limited fetch len f
+                    (next (bc_set_mem (bc_set_io s i') dst (from_u8 w b)))
+                | IoFail i' -> Stopped (bc_set_io s i'))
+             | Outp src ->
+               (match do_output e s.bc_io (into_u8 w (bc_mem s src)) with
+                | IoOk (_, i') ->
+                  bc_exec w e limited fetch len f (next (bc_set_io s i'))
+                | IoFail i' -> Stopped (bc_set_io s i'))
+             | BrZ (cond, off) ->
+               (match if limited then bc_limit (Zpos XH) s else Some s with
+                | Some s0 ->
+                  if Z.eqb (bc_mem s0 cond) Z0
+                  then bc_exec w e limited fetch len f
+                         (bc_set_pc s0 (Z.add s0.bc_pc off))
+                  else bc_exec w e limited fetch len f (next s0)
+                | None -> Interrupted (bc_set_budget s Z0))
+             | BrNZ (cond, off) ->
+               (match if limited then bc_limit (Zpos XH) s else Some s with
+                | Some s0 ->
+                  if Z.eqb (bc_mem s0 cond) Z0
+                  then bc_exec w e limited fetch len f (next s0)
+                  else bc_exec w e limited fetch len f
+                         (bc_set_pc s0 (Z.add s0.bc_pc off))
+                | None -> Interrupted (bc_set_budget s Z0))
+             | Add (d, a, b) ->
+               bc_exec w e limited fetch len f
+                 (next (bc_binop w (wadd w) s d a b))
+             | Sub (d, a, b) ->
+               bc_exec w e limited fetch len f
+                 (next (bc_binop w (fun x y -> wadd w x (wneg w y)) s d a b))
+             | Mul (d, a, b) ->
+               bc_exec w e limited fetch len f
+                 (next (bc_binop w (wmul w) s d a b))
+             | Copy (d, a) ->
+               let (v, s1) = bc_read w s a in
+               bc_exec w e limited fetch len f (next (bc_write s1 d v)))
+          | None -> Errored (s.bc_pc, s))
+
+(** val code_map :
+    binstr list -> z -> binstr PositiveMap.t -> binstr PositiveMap.t **)
+
+let rec code_map l i m =
+  match l with
+  | [] -> m
+  | x :: t0 ->
+    code_map t0 (Z.add i (Zpos XH)) (PositiveMap.add (key_of i) x m)
+
+(** val fetch_of : bprog -> z -> binstr option **)
+
+let fetch_of p =
+  let m = code_map p.bp_code Z0 PositiveMap.empty in
+  (fun pc -> if Z.ltb pc Z0 then None else PositiveMap.find (key_of pc) m)
+
+(** val bc_run : z -> env -> bool -> z -> nat -> bprog -> bcst outcome **)
+
+let bc_run w e limited budget fuel p =
+  if (&&) limited (Z.eqb budget Z0)
+  then Interrupted (bc0 budget)
+  else bc_exec w e limited (fetch_of p) (Z.of_nat (length p.bp_code)) fuel
+         (bc0 budget)
+
+type buff = (z * z) list
+
+(** val buff_get : buff -> z -> z option **)
+
+let rec buff_get b k =
+  match b with
+  | [] -> None
+  | p :: b' -> let (k', v) = p in if Z.eqb k' k then Some v else buff_get b' k
+
+(** val buff_set : buff -> z -> z -> buff **)
+
+let rec buff_set b k v =
+  match b with
+  | [] -> (k, v) :: []
+  | p :: b' ->
+    let (k', v') = p in
+    if Z.eqb k k'
+    then (k, v) :: b'
+    else if Z.ltb k k' then (k, v) :: b else (k', v') :: (buff_set b' k v)
+
+(** val buff_val : buff -> z -> z **)
+
+let buff_val b k =
+  match buff_get b k with
+  | Some v -> v
+  | None -> Z0
+
+(** val i_add : z -> z -> instr **)
+
+let i_add var val0 =
+  ICalc ((var, ((val0, []) :: (((Zpos XH), (var :: [])) :: []))) :: [])
+
+(** val i_load : z -> z -> instr **)
+
+let i_load var val0 =
+  ICalc ((var, (e_val val0)) :: [])
+
+type frame = { f_shift : z; f_moved : bool; f_insts : instr list;
+               f_buff : buff }
+
+type perr =
+| LoopNotClosed
+| LoopNotOpened
+
+type parse_res =
+| POk of block
+| PErr of perr * z
+
+(** val flush_nonzero : buff -> instr list -> instr list **)
+
+let flush_nonzero b insts =
+  fold_left (fun acc kv ->
+    if Z.eqb (snd kv) Z0 then acc else (i_add (fst kv) (snd kv)) :: acc) b
+    insts
+
+(** val flush_key : z -> (instr list * buff) -> instr list * buff **)
+
+let flush_key k = function
+| (insts, b) ->
+  let v = buff_val b k in
+  if Z.eqb v Z0
+  then (insts, (buff_set b k Z0))
+  else (((i_add k v) :: insts), (buff_set b k Z0))
+
+(** val zero_all : buff -> buff **)
+
+let zero_all b =
+  map (fun kv -> ((fst kv), Z0)) b
+
+(** val is_clear_loop : z -> frame -> instr list -> z -> bool **)
+
+let is_clear_loop _ sub0 sub_insts shift =
+  (&&) ((&&) (negb sub0.f_moved) (Z.eqb sub0.f_shift shift))
+    (match sub_insts with
+     | [] -> false
+     | i :: l ->
+       (match i with
+        | ICalc calcs ->
+          (match calcs with
+           | [] -> false
+           | p :: l0 ->
+             let (var, ex) = p in
+             (match l0 with
+              | [] ->
+                (match l with
+                 | [] ->
+                   (&&) (Z.eqb var shift)
+                     (match e_const_inc_of ex shift with
+                      | Some inc -> is_odd inc
+                      | None -> false)
+                 | _ :: _ -> false)
+              | _ :: _ -> false))
+        | _ -> false))
+
+(** val close_loop : z -> frame -> frame -> frame **)
+
+let close_loop w sub0 parent =
+  let sub_insts = rev (flush_nonzero sub0.f_buff sub0.f_insts) in
+  let shift = parent.f_shift in
+  if is_clear_loop w sub0 sub_insts shift
+  then { f_shift = shift; f_moved = parent.f_moved; f_insts =
+         ((i_load shift Z0) :: parent.f_insts); f_buff =
+         (buff_set parent.f_buff shift Z0) }
+  else let (insts1, b1) =
+         fold_left (fun st kv -> flush_key (fst kv) st) sub0.f_buff
+           (parent.f_insts, parent.f_buff)
+       in
+       let moves = (||) sub0.f_moved (negb (Z.eqb sub0.f_shift shift)) in
+       if moves
+       then let insts2 = flush_nonzero b1 insts1 in
+            let b2 = zero_all b1 in
+            let (insts3, b3) = flush_key shift (insts2, b2) in
+            { f_shift = shift; f_moved = ((||) parent.f_moved moves);
+            f_insts = ((ILoop (shift, (Z.sub sub0.f_shift shift), sub_insts,
+            false)) :: insts3); f_buff = b3 }
+       else let (insts3, b3) = flush_key shift (insts1, b1) in
+            { f_shift = shift; f_moved = ((||) parent.f_moved moves);
+            f_insts = ((ILoop (shift, (Z.sub sub0.f_shift shift), sub_insts,
+            false)) :: insts3); f_buff = b3 }
+
+(** val frame0 : z -> frame **)
+
+let frame0 shift =
+  { f_shift = shift; f_moved = false; f_insts = []; f_buff = [] }
+
+(** val with_shift : frame -> z -> frame **)
+
+let with_shift f s =
+  { f_shift = s; f_moved = f.f_moved; f_insts = f.f_insts; f_buff = f.f_buff }
+
+(** val with_insts_buff : frame -> instr list -> buff -> frame **)
+
+let with_insts_buff f i b =
+  { f_shift = f.f_shift; f_moved = f.f_moved; f_insts = i; f_buff = b }
+
+(** val parse_go :
+    z -> z list -> z -> frame -> frame list -> z list -> parse_res **)
+
+let rec parse_go w cs i top stack positions =
+  match cs with
+  | [] ->
+    (match stack with
+     | [] -> POk (top.f_shift, (rev (flush_nonzero top.f_buff top.f_insts)))
+     | _ :: _ ->
+       (match positions with
+        | [] -> PErr (LoopNotClosed, Z0)
+        | p :: _ -> PErr (LoopNotClosed, p)))
+  | c :: cs' ->
+    if Z.eqb c ch_gt
+    then parse_go w cs' (Z.add i (Zpos XH))
+           (with_shift top (Z.add top.f_shift (Zpos XH))) stack positions
+    else if Z.eqb c ch_lt
+         then parse_go w cs' (Z.add i (Zpos XH))
+                (with_shift top (Z.sub top.f_shift (Zpos XH))) stack positions
+         else if Z.eqb c ch_plus
+              then parse_go w cs' (Z.add i (Zpos XH))
+                     (with_insts_buff top top.f_insts
+                       (buff_set top.f_buff top.f_shift
+                         (wadd w (buff_val top.f_buff top.f_shift) (Zpos XH))))
+                     stack positions
+              else if Z.eqb c ch_minus
+                   then parse_go w cs' (Z.add i (Zpos XH))
+                          (with_insts_buff top top.f_insts
+                            (buff_set top.f_buff top.f_shift
+                              (wadd w (buff_val top.f_buff top.f_shift)
+                                (neg_one w)))) stack positions
+                   else if Z.eqb c ch_dot
+                        then let (insts, b) =
+                               flush_key top.f_shift (top.f_insts, top.f_buff)
+                             in
+                             parse_go w cs' (Z.add i (Zpos XH))
+                               (with_insts_buff top ((IOut
+                                 top.f_shift) :: insts) b) stack positions
+                        else if Z.eqb c ch_comma
+                             then parse_go w cs' (Z.add i (Zpos XH))
+                                    (with_insts_buff top ((IIn
+                                      top.f_shift) :: top.f_insts)
+                                      (buff_set top.f_buff top.f_shift Z0))
+                                    stack positions
+                             else if Z.eqb c ch_open
+                                  then parse_go w cs' (Z.add i (Zpos XH))
+                                         (frame0 top.f_shift) (top :: stack)
+                                         (i :: positions)
+                                  else if Z.eqb c ch_close
+                                       then (match positions with
+                                             | [] -> PErr (LoopNotOpened, i)
+                                             | _ :: positions' ->
+                                               (match stack with
+                                                | [] ->
+                                                  PErr (LoopNotOpened, i)
+                                                | parent :: stack' ->
+                                                  parse_go w cs'
+                                                    (Z.add i (Zpos XH))
+                                                    (close_loop w top parent)
+                                                    stack' positions'))
+                                       else parse_go w cs'
+                                              (Z.add i (Zpos XH)) top stack
+                                              positions
+
+(** val parse : z -> z list -> parse_res **)
+
+let parse w cs =
+  parse_go w cs Z0 (frame0 Z0) [] []
+
+type bfcfg = { c_ctl : cmd list; c_kont : (cmd list * cmd list) list;
+               c_st : bfst }
+
+type 'a step_res =
+| Next of 'a
+| Final of bfst outcome
+
+(** val bf_step : z -> env -> bfcfg -> bfcfg step_res **)
+
+let bf_step w e c =
+  match c.c_ctl with
+  | [] ->
+    (match c.c_kont with
+     | [] -> Final (Done c.c_st)
+     | p :: k ->
+       let (body, rest) = p in
+       if Z.eqb (cur c.c_st) Z0
+       then Next { c_ctl = rest; c_kont = k; c_st = c.c_st }
+       else Next { c_ctl = body; c_kont = ((body, rest) :: k); c_st = c.c_st })
+  | x :: rest ->
+    (match x with
+     | Loop body ->
+       if Z.eqb (cur c.c_st) Z0
+       then Next { c_ctl = rest; c_kont = c.c_kont; c_st = c.c_st }
+       else Next { c_ctl = body; c_kont = ((body, rest) :: c.c_kont); c_st =
+              c.c_st }
+     | _ ->
+       (match bf_simple w e x c.c_st with
+        | Inl s' -> Next { c_ctl = rest; c_kont = c.c_kont; c_st = s' }
+        | Inr s' -> Final (Stopped s')))
+
+(** val bf_steps : z -> env -> nat -> bfcfg -> bfst outcome **)
+
+let rec bf_steps w e n0 c =
+  match n0 with
+  | O -> OutOfFuel c.c_st
+  | S n' ->
+    (match bf_step w e c with
+     | Next c' -> bf_steps w e n' c'
+     | Final o -> o)
+
+(** val bf_machine_run : z -> env -> nat -> z list -> bfst outcome option **)
+
+let bf_machine_run w e n0 src =
+  match ast_of_source src with
+  | Some p -> Some (bf_steps w e n0 { c_ctl = p; c_kont = []; c_st = bf0 })
+  | None -> None
+
+type ircfg = { i_ctl : instr list; i_kont : (z * instr list) list; i_st : irst }
+
+type istep_res =
+| INext of ircfg
+| IFinal of irst outcome
+
+(** val ir_step : z -> env -> bool -> ircfg -> istep_res **)
+
+let ir_step w e limited c =
+  let s = c.i_st in
+  (match c.i_ctl with
+   | [] ->
+     (match c.i_kont with
+      | [] -> IFinal (Done s)
+      | p :: k ->
+        let (shift, next0) = p in
+        let s' = ir_move s shift in
+        if limited
+        then if Z.eqb s'.ir_budget Z0
+             then IFinal (Interrupted s')
+             else INext { i_ctl = next0; i_kont = k; i_st =
+                    (ir_set_budget s' (Z.sub s'.ir_budget (Zpos XH))) }
+        else INext { i_ctl = next0; i_kont = k; i_st = s' })
+   | i :: rest ->
+     (match i with
+      | IOut src ->
+        (match do_output e s.ir_io (into_u8 w (ir_read s src)) with
+         | IoOk (_, i0) ->
+           INext { i_ctl = rest; i_kont = c.i_kont; i_st = (ir_set_io s i0) }
+         | IoFail i0 -> IFinal (Stopped (ir_set_io s i0)))
+      | IIn dst ->
+        (match do_input e s.ir_io with
+         | IoOk (b, i0) ->
+           INext { i_ctl = rest; i_kont = c.i_kont; i_st =
+             (ir_write (ir_set_io s i0) dst (from_u8 w b)) }
+         | IoFail i0 -> IFinal (Stopped (ir_set_io s i0)))
+      | ICalc calcs ->
+        INext { i_ctl = rest; i_kont = c.i_kont; i_st = (ir_calc w calcs s) }
+      | ILoop (cond, shift, body, once) ->
+        if Z.eqb (ir_read s cond) Z0
+        then INext { i_ctl = rest; i_kont = c.i_kont; i_st = s }
+        else INext { i_ctl = body; i_kont = ((shift, ((ILoop (cond, shift,
+               body, once)) :: rest)) :: c.i_kont); i_st = s }
+      | IIf (cond, shift, body) ->
+        if Z.eqb (ir_read s cond) Z0
+        then INext { i_ctl = rest; i_kont = c.i_kont; i_st = s }
+        else INext { i_ctl = body; i_kont = ((shift, rest) :: c.i_kont);
+               i_st = s }))
+
+(** val ir_steps : z -> env -> bool -> nat -> ircfg -> irst outcome **)
+
+let rec ir_steps w e limited n0 c =
+  match n0 with
+  | O -> OutOfFuel c.i_st
+  | S n' ->
+    (match ir_step w e limited c with
+     | INext c' -> ir_steps w e limited n' c'
+     | IFinal o -> o)
+
+(** val ir_machine_run :
+    z -> env -> bool -> z -> nat -> block -> irst outcome **)
+
+let ir_machine_run w e limited budget n0 p =
+  ir_steps w e limited n0 { i_ctl = (snd p); i_kont = []; i_st =
+    (ir0 budget) }
